@@ -1,6 +1,6 @@
 (* C20 property theorems ONLY (each closed by an already proved lemma) + assumptions. *)
 From Coq Require Import List Reals String ZArith NArith Bool Lra Lia.
-From RV Require Import Common.Num Common.RealNum Gen.Units C14.Murmur C20.Units C20.UnitsState C20.Rotation C20.RotProofs C20.Frames C20.FrameProofs C16.Dual C20.Var2Proofs.
+From RV Require Import Common.Num Common.RealNum Gen.Units C14.Murmur C20.Units C20.UnitsState C20.UnitsDocs C20.Rotation C20.RotProofs C20.Frames C20.FrameProofs C16.Dual C20.Var2Proofs C11.Orbit C11.OrbitInv C11.OrbitProofs C20.OrbitRot.
 Import ListNotations.
 Open Scope string_scope.
 Open Scope R_scope.
@@ -101,6 +101,41 @@ Theorem C20_units_setter_getter_roundtrip : forall l t m us,
 Proof. exact units_setter_getter_roundtrip. Qed.
 Print Assumptions C20_units_setter_getter_roundtrip.
 
+(* whole particles (m x y z r vx vy vz ax ay az, as units_convert_particle converts them): A -> B -> A is the identity and
+   A -> B -> C equals A -> C, for any non-zero unit values (hence every supported triple, C20_table_values_nonzero) *)
+Theorem C20_particle_conversion_roundtrip : forall vals u0 u1, List.length vals = List.length particle_conversion -> unz u0 -> unz u1 ->
+  conv_particleR (conv_particleR vals u0 u1) u1 u0 = vals.
+Proof. exact particle_roundtrip. Qed.
+Print Assumptions C20_particle_conversion_roundtrip.
+Theorem C20_particle_conversion_transitive : forall vals u0 u1 u2, List.length vals = List.length particle_conversion -> unz u0 -> unz u1 -> unz u2 ->
+  conv_particleR (conv_particleR vals u0 u1) u1 u2 = conv_particleR vals u0 u2.
+Proof. exact particle_transitive. Qed.
+Print Assumptions C20_particle_conversion_transitive.
+
+(* the bodies with `**` kept abstract (the ones run at binary64 against Python, with libm pow supplied) are the same functions *)
+Theorem C20_pow_abstract_bodies_agree : forall x a b c d g,
+  convert_mass_pw RNum x a b = convert_mass RNum x a b /\
+  convert_length_pw RNum x a b = convert_length RNum x a b /\
+  convert_vel_pw RNum x a b c d = convert_vel RNum x a b c d /\
+  convert_acc_pw RNum (fun t => t * t) x a b c d = convert_acc RNum x a b c d /\
+  convert_G_pw RNum (fun t => t * t) (fun l => l * l * l) g a b c = convert_G RNum g a b c.
+Proof. exact pw_agrees. Qed.
+Print Assumptions C20_pow_abstract_bodies_agree.
+
+(* a relative error delta of G (2^-49 for the binary64 G, checked against the exact G for all 1785 triples on every run) moves the
+   square of a Kepler period by at most delta/(1-delta) relative *)
+Theorem C20_period_within_G_bound : forall G Gf delta k M a P Pf, 0 < G -> 0 <= delta < 1 -> Rabs (Gf - G) <= delta * G -> 0 < M -> 0 <= k * (a * a * a) ->
+  P * P * G * M = k * (a * a * a) -> Pf * Pf * Gf * M = k * (a * a * a) ->
+  Rabs (Pf * Pf - P * P) <= delta / (1 - delta) * (P * P).
+Proof. exact period_within_bound. Qed.
+Print Assumptions C20_period_within_G_bound.
+
+(* every unit name the documentation writes (docstring of Simulation.units; Units.ipynb) resolves, as written / lower / upper case, to
+   the table it is documented under; every documented (length,time,mass) combination in any order and case is accepted by check_units *)
+Theorem C20_documented_units_resolve : documented_resolve = true /\ documented_triples_ok = true /\ doc_counts_ok = true.
+Proof. exact (conj documented_resolve_true (conj documented_triples_ok_true doc_counts_ok_true)). Qed.
+Print Assumptions C20_documented_units_resolve.
+
 (* ================= rotations (over R) ================= *)
 Theorem C20_quaternion_group : forall a b c : quat R,
   q_mul RNum (q_mul RNum a b) c = q_mul RNum a (q_mul RNum b c) /\
@@ -191,12 +226,13 @@ Print Assumptions C20_init_orbit.
 
 (* reb_rotation_init_to_new_axes: unit quaternion taking newz_hat to z and the part of newx orthogonal to newz to rho * x, rho > 0;
    (c2,s2) are the half-angle values of -atan2(x'.y, x'.x) for the first-stage image x' of the orthogonalised newx.
-   Hypothesis: the first stage from_to(newz_hat, z) is not in the sub-threshold nearly-antiparallel zone *)
+   Hypothesis: newz_hat is exactly -z (degenerate antiparallel first stage) or the first stage is outside the sub-threshold zone
+   0 < |newz_hat + z|^2 <= 1e-28 (where from_to is by design only accurate to 1e-14) *)
 Theorem C20_init_to_new_axes : forall thr (newz newx : vec3 R) c2 s2 rho, 0 <= thr -> 0 < v_lsq RNum newz ->
   let f := v_normalize RNum newz in
   let xo := v_add RNum newx (v_mul RNum f (- v_dot RNum f newx)) in
   let x' := fst (to_new_axes_x' RNum isnormR thr newz newx) in
-  (0 <= v_dot RNum f ez \/ thr < v_lsq RNum (v_add RNum f ez)) ->
+  (0 <= v_dot RNum f ez \/ thr < v_lsq RNum (v_add RNum f ez) \/ f = v_mul RNum ez (-1)) ->
   c2 * c2 + s2 * s2 = 1 -> 0 < rho -> (c2 * c2 - s2 * s2) * rho = vx x' -> (2 * s2 * c2) * rho = - vy x' ->
   let q := to_new_axes RNum isnormR thr c2 s2 newz newx in
   q_lsq RNum q = 1 /\ rotate RNum f q = ez /\ rotate RNum xo q = mkV rho 0 0 /\ v_dot RNum f xo = 0.
@@ -210,6 +246,44 @@ Theorem C20_slerp_endpoints : forall eps (q1 q2 : quat R), 0 < eps ->
   slerp RNum eps s 0 q1 q2 = q1 /\ slerp RNum eps 0 s q1 q2 = q2.
 Proof. exact slerp_endpoints. Qed.
 Print Assumptions C20_slerp_endpoints.
+
+(* C20 composed with C11 (reb_particle_from_orbit): the particle built for (inc, Omega, omega) is the particle of the orbit in the xy plane
+   (same a, e, f) rotated about the primary by reb_rotation_init_orbit(Omega, inc, omega) *)
+Theorem C20_from_orbit_is_init_orbit_rotation : forall tiny G prim m a e (t : trig R) p p0 c_o s_o c_i s_i c_O s_O,
+  from_orbit_err RNum tiny G prim m a e t = inr p ->
+  from_orbit_err RNum tiny G prim m a e (mkTrig 1 0 1 0 (cf t) (sf t) 1 0) = inr p0 ->
+  c_o * c_o + s_o * s_o = 1 -> c_i * c_i + s_i * s_i = 1 -> c_O * c_O + s_O * s_O = 1 ->
+  co t = c_o * c_o - s_o * s_o -> so t = 2 * s_o * c_o -> ci t = c_i * c_i - s_i * s_i -> si t = 2 * s_i * c_i ->
+  cO t = c_O * c_O - s_O * s_O -> sO t = 2 * s_O * c_O ->
+  let q := init_orbit RNum c_o s_o c_i s_i c_O s_O in
+  q_lsq RNum q = 1 /\ relpos p prim = rotate RNum (relpos p0 prim) q /\ relvel p prim = rotate RNum (relvel p0 prim) q.
+Proof. exact from_orbit_is_init_orbit_rotation. Qed.
+Print Assumptions C20_from_orbit_is_init_orbit_rotation.
+
+(* rotating particle and primary by a unit quaternion: a, e, d, v, |h| as computed by reb_orbit_from_particle are unchanged, the
+   angular-momentum and eccentricity vectors rotate *)
+Theorem C20_orbit_elements_rotation_invariant : forall (L : libm R) (L2 : libm2 R) tiny G t0 q p prim o o', q_lsq RNum q = 1 ->
+  orbit_from_particle_err RNum L L2 tiny G t0 p prim = inr o ->
+  orbit_from_particle_err RNum L L2 tiny G t0 (rotP q p) (rotP q prim) = inr o' ->
+  o_a o' = o_a o /\ o_e o' = o_e o /\ o_d o' = o_d o /\ o_v o' = o_v o /\ o_h o' = o_h o /\
+  mkV (o_hx o') (o_hy o') (o_hz o') = rotate RNum (mkV (o_hx o) (o_hy o) (o_hz o)) q /\
+  mkV (o_ex o') (o_ey o') (o_ez o') = rotate RNum (mkV (o_ex o) (o_ey o) (o_ez o)) q.
+Proof. exact orbit_elements_rotation_invariant. Qed.
+Print Assumptions C20_orbit_elements_rotation_invariant.
+
+(* the planar orbit rotated by init_orbit(Omega, inc, omega) reads back a, e unchanged and the inclination and node of the rotation *)
+Theorem C20_rotated_planar_orbit_elements : forall (L : libm R) (L2 : libm2 R), l_acos L2 = acos -> l_pi L = PI ->
+  forall tiny G t0 prim m a e (t : trig R) p0 o inc Om c_o s_o c_i s_i c_O s_O,
+  trig_ok t -> 0 < G * (m + pm prim) -> shape_ok a e -> -1 < e * cf t -> tiny <= pm prim ->
+  ci t = cos inc -> si t = sin inc -> 0 < inc < PI -> cO t = cos Om -> sO t = sin Om -> - PI < Om <= PI ->
+  c_o * c_o + s_o * s_o = 1 -> c_i * c_i + s_i * s_i = 1 -> c_O * c_O + s_O * s_O = 1 ->
+  co t = c_o * c_o - s_o * s_o -> so t = 2 * s_o * c_o -> ci t = c_i * c_i - s_i * s_i -> si t = 2 * s_i * c_i ->
+  cO t = c_O * c_O - s_O * s_O -> sO t = 2 * s_O * c_O ->
+  from_orbit_err RNum tiny G prim m a e (mkTrig 1 0 1 0 (cf t) (sf t) 1 0) = inr p0 ->
+  orbit_from_particle_err RNum L L2 tiny G t0 (rot_about prim (init_orbit RNum c_o s_o c_i s_i c_O s_O) p0) prim = inr o ->
+  o_a o = a /\ o_e o = e /\ o_inc o = inc /\ o_Omega o = Om.
+Proof. exact rotated_planar_orbit_elements. Qed.
+Print Assumptions C20_rotated_planar_orbit_elements.
 
 (* ================= frames (one phase-space component; all N) ================= *)
 Theorem C20_move_to_com : forall ms qs, ms <> [] -> List.length ms = List.length qs -> pos_prefix 0 ms ->
@@ -250,6 +324,32 @@ Theorem C20_var1_is_com_variation : forall l, let M := Msum (l_m l) in M <> 0 ->
     = eps * eps * (dM * S1 - MQ (l_dm l) (l_dq l)).
 Proof. exact var1_is_com_variation. Qed.
 Print Assumptions C20_var1_is_com_variation.
+
+(* frame changes as equations: the COM frame forgets any earlier translation, both frame changes are idempotent, and they compose *)
+Theorem C20_frame_equations : forall ms qs c, ms <> [] -> List.length ms = List.length qs -> pos_prefix 0 ms ->
+  move_to_com RNum ms (shift RNum c qs) = move_to_com RNum ms qs /\
+  move_to_com RNum ms (move_to_com RNum ms qs) = move_to_com RNum ms qs /\
+  move_to_hel RNum (shift RNum c qs) = move_to_hel RNum qs /\
+  move_to_hel RNum (move_to_hel RNum qs) = move_to_hel RNum qs /\
+  move_to_com RNum ms (move_to_hel RNum qs) = move_to_com RNum ms qs /\
+  move_to_hel RNum (move_to_com RNum ms qs) = move_to_hel RNum qs.
+Proof.
+  intros ms qs c Hne Hl Hp. split; [apply move_to_com_after_translation; assumption|]. split; [apply move_to_com_idempotent; assumption|].
+  split; [apply move_to_hel_after_translation|]. split; [apply move_to_hel_idempotent|]. apply com_after_hel_and_hel_after_com; assumption.
+Qed.
+Print Assumptions C20_frame_equations.
+
+(* Simulation arithmetic: + is commutative and associative, scaling composes, 1 is neutral, scaling distributes over -, a - b = a + (-1) b, a - a = 0 *)
+Theorem C20_arithmetic_laws : forall (a b c : list R) s t, List.length a = List.length b -> List.length b = List.length c ->
+  iadd RNum a b = iadd RNum b a /\
+  iadd RNum (iadd RNum a b) c = iadd RNum a (iadd RNum b c) /\
+  imul RNum s (imul RNum t a) = imul RNum (t * s) a /\
+  imul RNum 1 a = a /\
+  imul RNum s (isub RNum a b) = isub RNum (imul RNum s a) (imul RNum s b) /\
+  isub RNum a b = iadd RNum a (imul RNum (-1) b) /\
+  (forall i, nth i (isub RNum a a) 0 = 0).
+Proof. exact arithmetic_laws. Qed.
+Print Assumptions C20_arithmetic_laws.
 
 (* the second-order variational correction of move_to_com IS the eps1*eps2 part of move_to_com run on nested dual numbers
    (m + e1 ma + e2 mb + e1e2 m2, q + e1 qa + e2 qb + e1e2 q2): the shift, and every shifted second-order particle *)
